@@ -1,6 +1,8 @@
 package main
 
 import (
+	"github.com/frankkopp/FrankyGo/internal/search"
+	"sync/atomic"
 	"fmt"
 	"strings"
 	"time"
@@ -149,11 +151,37 @@ func c16uci(c *Ctx) {
 	rep := c.Rep
 	nSess := c.Size(400, 20000)
 	caseIdx := 1 << 20 // risky-case numbering distinct from the fen part
+	// searches entered / left (trace events of the verif hook): configuration is process
+	// global, so the next session must not begin while a search of the last one still runs
+	var runsActive int64
+	search.VerifTraceHook = func(ev string, a, b int64) {
+		switch ev {
+		case "run-enter":
+			atomic.AddInt64(&runsActive, 1)
+		case "run-exit":
+			atomic.AddInt64(&runsActive, -1)
+		}
+	}
+	defer func() { search.VerifTraceHook = nil }()
+	var lastScript []string
 	for sid := 0; sid < nSess; sid++ {
 		if !c.Mine(sid) {
 			continue
 		}
 		r := SubRng(c.Seed, "c16/uci", sid)
+		if n := atomic.LoadInt64(&runsActive); n != 0 {
+			t0 := time.Now()
+			for atomic.LoadInt64(&runsActive) != 0 && time.Since(t0) < 30*time.Second {
+				time.Sleep(5 * time.Millisecond)
+			}
+			rep.Inc("uci_search_outlived_session")
+			if atomic.LoadInt64(&runsActive) != 0 {
+				rep.Viol("uci:search-still-running-after-quit", fmt.Sprintf("30 s after the session was ended with stop / isready / quit a search of its engine is still running (script %q)", trimAll(lastScript, 60)), map[string]interface{}{"script": trimAll(lastScript, 200)})
+				atomic.StoreInt64(&runsActive, 0)
+			} else {
+				rep.Note(fmt.Sprintf("a search outlived its session by %s (script tail %q)", time.Since(t0), trimAll(lastScript, 60)))
+			}
+		}
 		restoreSearchCfg()
 		var u *uciSess
 		cur := rc.StartFEN
@@ -209,6 +237,7 @@ func c16uci(c *Ctx) {
 			rep.Inc("uci_long_game_lines")
 		}
 		rep.Inc("uci_sessions")
+		lastScript = script
 		for k, line := range script {
 			caseIdx++
 			desc := line
@@ -304,6 +333,12 @@ func c16uci(c *Ctx) {
 			if r.Chance(0.15) {
 				b, err := rc.ParseFEN(cur)
 				if err == nil && len(b.Legal()) > 0 {
+					// the search of the hostile line may still be on its way out after readyok:
+					// its late bestmove must not be taken for the probe's
+					for t0 := time.Now(); atomic.LoadInt64(&runsActive) != 0 && time.Since(t0) < 10*time.Second; {
+						time.Sleep(time.Millisecond)
+					}
+					u.poll()
 					u.send("go depth 1")
 					if _, ok, _ := u.waitFor(isBestmove, 30*time.Second); !ok {
 						rep.Viol("uci:no-bestmove-after-hostile-line:"+cmdClass(line), fmt.Sprintf("go depth 1 after line %q gives no bestmove", desc), payload)
